@@ -13,10 +13,12 @@ LDLIBS   := -levent -lm -ldl
 CORE_SRC := accumulators bitset common config log module set git-version
 CORE_OBJ := $(addprefix $(B)/obj/,$(addsuffix .o,$(CORE_SRC)))
 MODS     := iauth iauth_xquery iauth_class
+# many independent modules whose names sort before the others (counts across 127/128: rare "bulk" runs)
+BULK     := $(shell seq -f "a%03g" 0 139)
 STUBN    := m0 m1 m2 m3 m4 m5 m6 m7 m8 m9 m m1x m1xy M2z
 # each stub in four variants: all hooks / no post-init / no destructor / neither (separate files: dlopen
 # identifies a library by its inode)
-STUBS    := $(STUBN) $(addsuffix _np,$(STUBN)) $(addsuffix _nd,$(STUBN)) $(addsuffix _npd,$(STUBN))
+STUBS    := $(STUBN) $(addsuffix _np,$(STUBN)) $(addsuffix _nd,$(STUBN)) $(addsuffix _npd,$(STUBN)) $(BULK)
 HDRS     := $(wildcard $(REPO)/src/*.h) $(wildcard $(REPO)/modules/*.h) $(wildcard $(REPO)/autoconf.h) $(B)/.flags
 
 # objects are rebuilt when the compile line or the repository location changes
@@ -70,6 +72,9 @@ $(B)/stubs/m%_npd.so: $(B)/stubs/stub_npd.so
 	cp $< $@
 
 $(B)/stubs/m%.so: $(B)/stubs/stub.so
+	cp $< $@
+
+$(B)/stubs/a%.so: $(B)/stubs/stub.so
 	cp $< $@
 
 # names that the pattern rules above do not produce (empty stem, capital M)
